@@ -32,6 +32,7 @@ import Drivers.Mixed
 import Drivers.ReconPar
 import Drivers.PartMeshb
 import Drivers.InterpLocate
+import Drivers.PhysDist
 
 /-! `refdrv <driver> [args]` : dispatch to a line-protocol driver. One match arm per driver, on one line. -/
 
@@ -69,6 +70,7 @@ def main (args : List String) : IO UInt32 := do
   | "reconpar" :: rest => Drivers.ReconPar.run rest
   | "partmeshb" :: rest => Drivers.PartMeshb.run rest
   | "interplocate" :: rest => Drivers.InterpLocate.run rest
+  | "physdist" :: rest => Drivers.PhysDist.run rest
   | _ =>
     IO.eprintln s!"refdrv: unknown driver {args}"
     return 2
